@@ -15,7 +15,7 @@ func (v *Vue) evalVHtml(ctx VueContext, n *html.Node) error {
 		return nil
 	}
 
-	val, ok := ctx.stack.Resolve(expr)
+	val, ok := v.resolveOperand(ctx, expr)
 	if !ok {
 		// v-html may be a function call like "file(src)"
 		var err error
